@@ -1,7 +1,7 @@
 (* Properties/C17.v — BMFF mdat hashing is independent of how the payload is chunked.
    Statements only; every theorem is closed by [exact] of a lemma in Proofs/MerkleAccProofs.v.
-   Model: Model/MerkleAcc.v (MerkleAccumulator::add_merkle_leaf with its first-call header skip, the `<= 8` early
-   return, fixed-size buffering with remainders, variable mode; the flush in Builder::update_hash_from_stream;
+   Model: Model/MerkleAcc.v (MerkleAccumulator::add_merkle_leaf with its empty-chunk return, the header skip spread
+   over the first chunks, fixed-size buffering with remainders, variable mode; the flush in Builder::update_hash_from_stream;
    MerkleMap::create_mms_from_mdat_leaves; the per-mdat part of validate_merkle_maps_mdat_boxes).  A leaf carries
    its content where the code stores hash(content), so the statements are about bytes and hold for any hash.
    [cs] is the list of chunks handed to Builder::hash_bmff_mdat_bytes for one mdat, [concat cs] its payload,
@@ -13,18 +13,19 @@ Import ListNotations.
 Open Scope nat_scope.
 
 (* the constants of the source fit together: header skip + standard header = the validator's exclusion,
-   large header = exclusion, the early return covers every chunk shorter than the skip, leaf sizes are KiB *)
+   large header = exclusion, leaf sizes are KiB *)
 Theorem c17_constants :
   (HEADER_SKIP + STD_HEADER = MDAT_EXCLUSION_SIZE /\ LARGE_HEADER = MDAT_EXCLUSION_SIZE
-   /\ MDAT_SUBSET_OFFSET = MDAT_EXCLUSION_SIZE /\ HEADER_SKIP <= SKIP_EARLY_MAX + 1
+   /\ MDAT_SUBSET_OFFSET = MDAT_EXCLUSION_SIZE
    /\ forall kb, 1 <= kb -> 2 <= fixed_of_kb kb)%N.
-Proof. unfold fixed_of_kb. vm_compute HEADER_SKIP. repeat split; try reflexivity; try discriminate. intros kb H. unfold KB. lia. Qed.
+Proof. unfold fixed_of_kb. vm_compute HEADER_SKIP. repeat split; try reflexivity. intros kb H. unfold KB. lia. Qed.
 
-(* fixed leaf size, any chunking outside F-MDAT8: the recorded leaves are the fs-byte pieces of the payload after
-   the header skip -- a function of the concatenated payload only *)
+(* fixed leaf size, EVERY chunking (first chunks of any size, empty chunks anywhere): the recorded leaves are the
+   fs-byte pieces of the payload after the header skip -- a function of the concatenated payload only.
+   (Before fix 48af40150 this failed for leading chunks of at most 8 bytes: F-MDAT8.) *)
 Theorem c17_fixed_leaves :
   forall fs large cs,
-    (1 <= fs)%N -> ~ known_mdat8 large cs ->
+    (1 <= fs)%N ->
     exists st, run_chunks (Some fs) large cs fresh_state = AOk st
       /\ final_leaves st
          = map mk (let q := skipn (skip_of large) (concat cs) in chunks (length q) (N.to_nat fs) q).
@@ -32,80 +33,44 @@ Proof. exact fixed_leaves. Qed.
 
 Theorem c17_split_independent :
   forall fs large cs cs',
-    (1 <= fs)%N -> concat cs = concat cs' -> ~ known_mdat8 large cs -> ~ known_mdat8 large cs' ->
+    (1 <= fs)%N -> concat cs = concat cs' ->
     exists st st', run_chunks (Some fs) large cs fresh_state = AOk st
       /\ run_chunks (Some fs) large cs' fresh_state = AOk st'
       /\ final_leaves st = final_leaves st'.
 Proof. exact fixed_split_independent. Qed.
 
-(* variable leaves: the leaf contents concatenate to the payload after the header skip, recorded lengths are the
-   content lengths, and no leaf is empty when no chunk that reaches the recording branch is
-   ([effective]: all chunks for a large header, the chunks from the first one longer than 8 bytes otherwise) *)
+(* variable leaves, every chunking: the leaf contents concatenate to the payload after the header skip, recorded
+   lengths are the content lengths, and no leaf is empty (before fix 48af40150 an empty chunk was recorded as a
+   zero-length leaf with an empty digest: F-MDAT-EMPTY) *)
 Theorem c17_variable_cover :
   forall large cs,
-    ~ known_mdat8 large cs ->
     exists st, run_chunks None large cs fresh_state = AOk st
       /\ concat (map snd (final_leaves st)) = skipn (skip_of large) (concat cs)
       /\ Forall (fun lf => fst lf = len (snd lf)) (final_leaves st)
-      /\ (Forall (fun c => c <> []) (effective large cs) -> Forall (fun lf => snd lf <> []) (final_leaves st)).
+      /\ Forall (fun lf => snd lf <> []) (final_leaves st).
 Proof. exact variable_cover. Qed.
 
-(* the validator, run on the written box with the MerkleMap built from the recorded leaves, accepts
-   (fixed mode: leaf size and Merkle region of at least 2 bytes -- the validator refuses fixedBlockSize <= 1) *)
+(* the validator, run on the written box with the MerkleMap built from the recorded leaves, accepts, for every
+   chunking; fixed mode: leaf size and Merkle region of at least 2 bytes -- the validator refuses
+   fixedBlockSize <= 1 (F-MDAT-FBS1, the one open class) *)
 Theorem c17_validator_agrees_fixed :
   forall fs large (hdr : bytes) cs st mm,
-    (2 <= fs)%N -> ~ known_mdat8 large cs -> length hdr = header_len large ->
+    (2 <= fs)%N -> length hdr = header_len large ->
     2 <= length (skipn (skip_of large) (concat cs)) ->
     run_chunks (Some fs) large cs fresh_state = AOk st ->
     create_mm (Some fs) (final_leaves st) = AOk mm ->
     validate_mdat (hdr ++ concat cs) mm = VOk tt.
 Proof. exact validate_fixed. Qed.
 
-(* variable mode, outside F-MDAT8 and F-MDAT-EMPTY (an empty chunk is recorded as a zero-length leaf whose digest
-   is the empty string: hash_by_alg swallows the "no data" error) *)
 Theorem c17_validator_agrees_variable :
   forall large (hdr : bytes) cs st mm,
-    ~ known_mdat8 large cs -> ~ known_empty large cs -> length hdr = header_len large ->
+    length hdr = header_len large ->
     run_chunks None large cs fresh_state = AOk st ->
     create_mm None (final_leaves st) = AOk mm ->
     validate_mdat (hdr ++ concat cs) mm = VOk tt.
 Proof. exact validate_variable. Qed.
 
-(* F-MDAT8 is real and exactly characterised: leading chunks of at most 8 bytes are dropped whole and the header
-   skip is then taken from the first longer chunk; on the witness a leaf is lost and the validator rejects *)
-Theorem c17_mdat8_characterised :
-  forall fixed cs,
-    run_chunks fixed false cs fresh_state = run_chunks fixed false (drop_short cs) fresh_state.
-Proof. exact mdat8_characterised. Qed.
-
-Theorem c17_fixed_leaves_all_chunkings :
-  forall fs large cs,
-    (1 <= fs)%N ->
-    exists st, run_chunks (Some fs) large cs fresh_state = AOk st
-      /\ final_leaves st
-         = map mk (let q := skipn (skip_of large) (concat (effective large cs)) in chunks (length q) (N.to_nat fs) q).
-Proof. exact fixed_char. Qed.
-
-Theorem c17_mdat8_refuted :
-  concat mdat8_chunks = mdat8_payload /\ known_mdat8 false mdat8_chunks /\
-  exists st mm,
-    run_chunks (Some 4%N) false mdat8_chunks fresh_state = AOk st
-    /\ map snd (final_leaves st) = [[12; 13; 14; 15]; [16; 17; 18; 19]]%N
-    /\ chunks 12 4 (skipn 8 mdat8_payload) = [[8; 9; 10; 11]; [12; 13; 14; 15]; [16; 17; 18; 19]]%N
-    /\ create_mm (Some 4%N) (final_leaves st) = AOk mm
-    /\ validate_mdat (mdat8_header ++ mdat8_payload) mm = VErr VValidation.
-Proof. exact mdat8_refuted. Qed.
-
-Theorem c17_empty_refuted :
-  concat empty_chunks = empty_payload /\ known_empty true empty_chunks /\ ~ known_mdat8 true empty_chunks /\
-  exists st mm,
-    run_chunks None true empty_chunks fresh_state = AOk st
-    /\ map fst (final_leaves st) = [5; 0; 7]%N
-    /\ create_mm None (final_leaves st) = AOk mm
-    /\ validate_mdat (large_header ++ empty_payload) mm = VErr VHashMismatch.
-Proof. exact empty_refuted. Qed.
-
-(* F-MDAT-FBS1 (why the fixed-mode theorem asks for a Merkle region of at least 2 bytes) *)
+(* F-MDAT-FBS1 (open; why the fixed-mode theorem asks for a Merkle region of at least 2 bytes) *)
 Theorem c17_fbs1_refuted :
   exists st mm,
     run_chunks (Some 1024%N) false [map N.of_nat (seq 0 9)] fresh_state = AOk st
@@ -114,13 +79,18 @@ Theorem c17_fbs1_refuted :
     /\ validate_mdat ([0; 0; 0; 17; 109; 100; 97; 116]%N ++ map N.of_nat (seq 0 9)) mm = VErr VHashMismatch.
 Proof. exact fbs1_refuted. Qed.
 
-(* non-vacuity: 21-byte payload in chunks of 9, 0, 5 and 7 bytes, 4-byte leaves, standard header *)
+(* non-vacuity, on the inputs that used to witness F-MDAT8 (4 + 16 bytes, 4-byte leaves, standard header) and
+   F-MDAT-EMPTY (5 + 0 + 7 bytes, variable leaves, large header): all leaves are recorded and the validator accepts *)
 Example c17_example :
-  let p := map N.of_nat (seq 0 21) in
-  let cs := [firstn 9 p; []; firstn 5 (skipn 9 p); skipn 14 p] in
-  ~ known_mdat8 false cs /\
-  match run_chunks (Some 4%N) false cs fresh_state with
-  | AOk st => map snd (final_leaves st) = [[8;9;10;11]; [12;13;14;15]; [16;17;18;19]; [20]]%N
-  | AErr _ => False
-  end.
-Proof. split; [intros [_ H]; vm_compute in H; lia|vm_compute; reflexivity]. Qed.
+  (exists st mm, run_chunks (Some 4%N) false mdat8_chunks fresh_state = AOk st
+     /\ map snd (final_leaves st) = [[8; 9; 10; 11]; [12; 13; 14; 15]; [16; 17; 18; 19]]%N
+     /\ skipped st = 8%N
+     /\ create_mm (Some 4%N) (final_leaves st) = AOk mm
+     /\ validate_mdat (mdat8_header ++ mdat8_payload) mm = VOk tt)
+  /\ (exists st mm, run_chunks None true empty_chunks fresh_state = AOk st
+     /\ map fst (final_leaves st) = [5; 7]%N
+     /\ create_mm None (final_leaves st) = AOk mm
+     /\ validate_mdat (large_header ++ empty_payload) mm = VOk tt).
+Proof.
+  split; eexists; eexists; (split; [vm_compute; reflexivity|]); repeat split; vm_compute; reflexivity.
+Qed.
